@@ -1,0 +1,24 @@
+//go:build verif
+
+package collector
+
+import "github.com/blevesearch/bleve/v2/search"
+
+// VerifStore returns the hit numbers currently held by the bounded result
+// store (in the store's internal order) and the hit number of
+// lowestMatchOutsideResults (0 when unset). Build tag verif only.
+func (hc *TopNCollector) VerifStore() (stored []uint64, lowestOutside uint64) {
+	if hc.store != nil {
+		for _, dm := range hc.store.Internal() {
+			if dm != nil {
+				stored = append(stored, dm.HitNumber)
+			}
+		}
+	}
+	if hc.lowestMatchOutsideResults != nil {
+		lowestOutside = hc.lowestMatchOutsideResults.HitNumber
+	}
+	return stored, lowestOutside
+}
+
+var _ = search.DocumentMatch{}
